@@ -280,3 +280,31 @@ ADDENDA5 = {
 }
 for _p, _t in ADDENDA5.items():
     CLAIMED[_p]['text'] = CLAIMED[_p]['text'].rstrip() + ' ' + _t
+
+# round 15 (and the tail of round 14)
+ADDENDA6 = {
+    'C01': "(N, extended) the conversion of sampling dates into tip heights follows one convention in the four sign cases (C06.C table, list and tensor forms); the C02.N written-down rules "
+           "(slices resolved by Python, the tree indexed is the tree written, branches are the nodes with a parent); compress / assembly rules of C01.W / C01.B.",
+    'C02': "(N, extended) column selections are resolved by Python's own slice semantics (no slice rebuilt from slice.indices(), no slice bound handed to range() as written); nothing between "
+           "the newick parser and setup_indexes rotates, re-roots or prunes the tree; the nodes that carry a branch are selected by topology (parent), never by whether a length was written; "
+           "distinct columns kept with their full count and per-node branch vector = lengths + one zero (C01.W / C01.B rules).",
+    'C06': "(C, extended) tensor forms of the date conversion (`dates.max() - dates`, `torch.any(dates == 0)` = SOME date is zero, which differs from `min == 0` when the most recent date is "
+           "zero); (T, extended) a work array written in place carries the dtype of what is stored.",
+    'C08': "(P, extended) marks combined with per-interval quantities are the marks that END the intervals (`[..., 1:]`); (T, extended) work arrays written in place carry a dtype; "
+           "(B, extended) no value that may differ between samples is folded to the row of the first sample.",
+    'C09': "(T, extended) the extinction-probability array of the skyline recursion (written in place) is allocated with the dtype of the rates; (A, extended) epochs are looked up in each "
+           "sample's own grid (no `reshape(-1, n)[0]` of a value that may be batched); (H) C11.H handler and C11.M memo rules on the birth-death modules.",
+    'C10': "(R, extended) ranks RELATIVE to an unknown base through `x[..., i]` (drops the axis) and `x[..., a:b]` (keeps it), scalars neutral, augmented assignments, sort / gather / cat; "
+           "(J, extended) the per-component terms of the joint are never broadcast against each other (right alignment), return decided structurally (cat of the accumulator along −1, sum "
+           "over −1); (P, extended) `x.unsqueeze(0)` of an attribute under a rank test of ANOTHER value (dead code skipped by CFG reachability); rows of the first sample.",
+    'C12': "(D, extended) operations torch has no derivative for (weighted bincount, histograms) on values computed from parameters; (X) transforms keep torch's identity-keyed cache off.",
+    'C16': "(K, extended) one trajectory per proposal: nothing reachable from HMCOperator._step (self-method calls and hmc-package functions) runs the integrator besides the call bracketed "
+           "by K0 and K1 (the step-size search belongs to the constructor).",
+    'C17': "(A, extended) template methods call the abstract hook (`self._load_state_dict` / `self._state_dict`) on every path; (E, extended) TensorDecoder rebuilds a tensor with the dtype "
+           "its record carries (backward slice of the dtype handed to torch.tensor: reads the record, no session default / fixed precision on the recorded path).",
+    'C19': "(J, extended) edits of the Jacobian list lie on every path under the (clock, heights, coalescent) values that require them — no other option gates them; no collected Jacobian is "
+           "stacked on the output of a transform create_jacobians leaves out; (L, extended) the Python kinds an argparse converter can return are covered by the isinstance tests of its "
+           "consumers; (O, extended) of two builders that lazily define a shared object (`if not hasattr(arg, '_data_type')`), the one called first is emitted first.",
+}
+for _p, _t in ADDENDA6.items():
+    CLAIMED[_p]['text'] = CLAIMED[_p]['text'].rstrip() + ' ' + _t
